@@ -420,8 +420,97 @@ fn random_job(ctx: &Ctx, job: usize, iters: u64) -> Stats {
     st
 }
 
+/// Whatever a public operation hands out must be THE canonical diagram of the function it
+/// denotes: random sequences of API calls (connectives, ite, quantifiers, counting over lists of
+/// plain variables in arbitrary order and of compound operands, model, retain, fp); every result
+/// is walked (ordered + reduced) and compared with the independent ROBDD of its own truth table.
+fn api_soup_job(ctx: &Ctx, job: usize, sequences: u64, len: usize) -> Stats {
+    use super::c13::{apply, Op, BIN};
+    let mut st = Stats::new();
+    let mut rng = Rng::stream(ctx.seed, "C02.soup", job as u64);
+    for seq in 0..sequences {
+        let nv = 4 + rng.usize(3);
+        let labels = super::common::pick_labels(&mut rng, &super::common::LABEL_POOL, nv);
+        let vars: Vec<(usize, u32)> = labels.iter().enumerate().map(|(i, l)| (*l, i as u32)).collect();
+        let idx = |s: &usize| labels.iter().position(|x| x == s).map(|p| p as u32);
+        let env: BDDEnv<usize> = BDDEnv::new();
+        // pool: the variables in a random order, their negations, then results
+        let mut pool: Vec<D> = Vec::new();
+        let mut order: Vec<usize> = labels.clone();
+        rng.shuffle(&mut order);
+        for l in &order {
+            pool.push(env.var(*l));
+        }
+        for l in &order {
+            pool.push(env.not(env.var(*l)));
+        }
+        let base = pool.len();
+        let mut done: Vec<String> = Vec::new();
+        for _ in 0..len {
+            let pick = |rng: &mut Rng, pool: &Vec<D>| -> usize {
+                if rng.chance(3, 5) {
+                    rng.usize(base.min(pool.len()))
+                } else {
+                    rng.usize(pool.len())
+                }
+            };
+            let list = |rng: &mut Rng, pool: &Vec<D>, max: usize| -> Vec<usize> { (0..rng.usize(max + 1)).map(|_| pick(rng, pool)).collect() };
+            let op = match rng.below(12) {
+                0 | 1 => Op::Bin(BIN[rng.usize(BIN.len())], pick(&mut rng, &pool), pick(&mut rng, &pool)),
+                2 => Op::Ite(pick(&mut rng, &pool), pick(&mut rng, &pool), pick(&mut rng, &pool)),
+                3 => Op::Not(pick(&mut rng, &pool)),
+                4 => Op::Exists((0..rng.usize(3)).map(|_| *rng.pick(&labels)).collect(), pick(&mut rng, &pool)),
+                5 => Op::All((0..rng.usize(3)).map(|_| *rng.pick(&labels)).collect(), pick(&mut rng, &pool)),
+                6 | 7 | 8 => {
+                    let xs = list(&mut rng, &pool, 5);
+                    let n = rng.range(-1, xs.len() as i64 + 1);
+                    Op::CountConst(["aln", "amn", "exn"][rng.usize(3)], xs, n)
+                }
+                9 => Op::CountList(["leq", "lt", "geq", "gt", "eq"][rng.usize(5)], list(&mut rng, &pool, 3), list(&mut rng, &pool, 3)),
+                10 => Op::Model(pick(&mut rng, &pool)),
+                _ => Op::Fp(pick(&mut rng, &pool), pick(&mut rng, &pool), pick(&mut rng, &pool)),
+            };
+            done.push(format!("{:?}", op));
+            st.evals += 1;
+            st.bump("api_soup_calls");
+            let case = || json!({"kind": "api-soup", "labels": labels.iter().map(|x| x.to_string()).collect::<Vec<_>>(), "variable_order_in_pool": order.iter().map(|x| x.to_string()).collect::<Vec<_>>(), "ops": done, "seed": ctx.seed, "job": job, "sequence": seq, "len": len});
+            util::budget(50_000_000, 10_000);
+            let r = match guarded(|| apply(&env, &op, &|i| Rc::clone(&pool[i]))) {
+                Ok((Some(r), _)) => r,
+                Ok((None, _)) => continue,
+                Err(c) => {
+                    st.bump(&format!("api_soup_panic[{}](not judged here)", c.signature()));
+                    break;
+                }
+            };
+            match check_ordered_reduced(&r) {
+                Ok(k) => st.add("nodes_walked", k),
+                Err(m) => {
+                    st.violate("c02.walker", format!("C02:api:{}:not-ordered-reduced", done.last().unwrap().split('(').next().unwrap_or("?")), format!("{} in the result of {}: {}\n operands: {:?}", m, done.last().unwrap(), short(&r), super::c13_operands_short(&op, &pool)), case());
+                    break;
+                }
+            }
+            if let Ok(t) = tt_of_bdd(&r, labels.len() as u32, &idx) {
+                let reference = build_ref(&t, &vars);
+                if r.as_ref() != reference.as_ref() || r.get_hash() != reference.get_hash() {
+                    st.violate("c02.canonical", format!("C02:api:{}:not-canonical", done.last().unwrap().split('(').next().unwrap_or("?")), format!("result of {} is {} but the canonical diagram of the function it denotes is {}", done.last().unwrap(), short(&r), short(&reference)), case());
+                    break;
+                }
+                if !t.is_const() {
+                    st.nt.insert(mix(mix(t.hash64(), util::hash_str(done.last().unwrap())), nv as u64));
+                }
+            }
+            pool.push(r);
+        }
+    }
+    st
+}
+
 pub fn run(ctx: &Ctx) -> (Stats, Spec) {
     let mut st = Stats::new();
+    let (seqs, slen) = ctx.tier.pick((400u64, 40usize), (20_000u64, 60usize));
+    let parts = util::par_jobs(16, |job| api_soup_job(ctx, job, seqs, slen));
+    st.merge(crate::report::merge_all(parts));
     // all 256 functions over 3 variables, both families
     let parts = util::par_jobs(2 * 8, |job| exhaustive_job(3, job / 8, job % 8, 8, 1));
     st.merge(crate::report::merge_all(parts));
@@ -438,7 +527,7 @@ pub fn run(ctx: &Ctx) -> (Stats, Spec) {
     st.merge(crate::report::merge_all(parts));
 
     let spec = Spec {
-        rule: "each Boolean function (all over 3 variables; every 2nd [quick] / all [thorough] over 4; random over 5-7 sparse labels incl. usize::MAX) is built by 18 independent routes through the public API (operands from another environment handed to an operation [or, absorption, ite], mk_choice, DNF, CNF, Shannon/ite, xor detour, double negation, absorption, De Morgan via nor/nand, quantifier detour, counting detour, fixed-point detour, model of minterms, retain(Any)+clean, operand-order split) alternating between two environments, plus the formula language; distinct = (table, route, family); non-trivial = non-constant table with >= 2 support variables.".into(),
+        rule: "each Boolean function (all over 3 variables; every 2nd [quick] / all [thorough] over 4; random over 5-7 sparse labels incl. usize::MAX) is built by 18 independent routes through the public API (operands from another environment handed to an operation [or, absorption, ite], mk_choice, DNF, CNF, Shannon/ite, xor detour, double negation, absorption, De Morgan via nor/nand, quantifier detour, counting detour, fixed-point detour, model of minterms, retain(Any)+clean, operand-order split) alternating between two environments, plus the formula language; and random sequences of API calls (connectives, ite, quantifiers, counting over lists of plain variables in arbitrary order and compound operands, model, fp) whose every result is compared with the canonical diagram of its own truth table; distinct = (table, route, family); non-trivial = non-constant table with >= 2 support variables.".into(),
         assumptions: vec![
             "'hash equal' is demanded only in the direction same function => same hash; collisions between different functions are counted, not reported".into(),
             "a change replacing structural equality by hash equality would need a constructed 64-bit collision to be observed (out of reach)".into(),
@@ -448,6 +537,7 @@ pub fn run(ctx: &Ctx) -> (Stats, Spec) {
             ("route_quantifier-detour".into(), 500, "quantifier route never exercised".into()),
             ("route_fixpoint-detour".into(), 500, "fixed-point route never exercised".into()),
             ("route_formula-text".into(), 200, "formula-text route never exercised".into()),
+            ("api_soup_calls".into(), 50_000, "API sequences hardly exercised".into()),
             ("nodes_walked".into(), 10_000, "walker saw too few nodes".into()),
             ("distinct_nontrivial".into(), 5_000, "too few non-trivial cases".into()),
         ],
@@ -456,6 +546,17 @@ pub fn run(ctx: &Ctx) -> (Stats, Spec) {
 }
 
 pub fn replay(_ctx: &Ctx, _monitor: &str, case: &Value, st: &mut Stats) {
+    if case.get("kind").and_then(|k| k.as_str()) == Some("api-soup") {
+        // deterministic: re-run the recorded job's stream (same seed, job) — the sequence is found again
+        let job = case.get("job").and_then(|j| j.as_u64()).unwrap_or(0) as usize;
+        let seq = case.get("sequence").and_then(|j| j.as_u64()).unwrap_or(0);
+        let mut c2 = _ctx.clone();
+        c2.seed = case.get("seed").and_then(|j| j.as_u64()).unwrap_or(_ctx.seed);
+        let len = case.get("len").and_then(|j| j.as_u64()).unwrap_or(40) as usize;
+        let s2 = api_soup_job(&c2, job, seq + 1, len);
+        st.merge(s2);
+        return;
+    }
     let Some(t) = case.get("table").and_then(|v| v.as_str()).and_then(Tt::parse_hex) else { return };
     if case.get("route").and_then(|r| r.as_str()) == Some("formula-text") {
         text_route(st, &t, t.n);
